@@ -201,7 +201,7 @@ func checkC10(c *Ctx) {
 	if nBad == 0 {
 		c.ok("O2 passes-skip-timers", "report passes", token.NoPos, fmt.Sprintf("none of the %d functions reachable from the report passes delivers, records or buffers a timer value", len(reach)))
 	}
-	c.floor("O2 passes-skip-timers", len(reach), 10)
+	c.floor("O2 passes-skip-timers", len(reach), 5)
 	// no scope field may hold buffered timer values for a later pass: Record is the only deliverer
 	nDel := 0
 	for _, fn := range c.funcsOfPkg("") {
